@@ -11,7 +11,8 @@
    Codes: 1101 an action was executed that the script / abstract state does not
    allow at this point; 1102 an action allowed by the abstract state was
    skipped; 1103 the loop polls repeatedly
-   (two consecutive waits return nothing without sleeping) without running any callback. *)
+   (two consecutive waits return nothing without sleeping) without running any callback; 1104 at a
+   kernel wait the interest set still has an entry for an unregistered descriptor object. *)
 
 From Coq Require Import List ZArith Bool.
 From Ivv Require Import Core.Kernel Core.CoreTypes Core.CoreFd Core.Monitors.
@@ -198,7 +199,12 @@ Definition gstep (sc : scenario) (g : gmon) (e : tev) : gmon :=
       let g := g_set_idle (track (boundary g) e) false (g_idle g) in
       let '(g, l) := script_of sc g (HK_R + j) in g_with g (g_m g) l
   | TMain => g_with (track (boundary g) e) (mon_step (g_m (boundary g)) e) []
-  | TWait n _ _ _ _ _ =>
+  | TWait n _ _ _ interest _ =>
+      (* 1104: the kernel still holds an interest entry (hence a pointer) for a descriptor object whose
+         unregister call has returned -- any event on it would make the library touch that object *)
+      let stale := existsb (fun e => let fd := fst (fst e) in
+                                     (100 <=? fd) && (fd <? 116) && negb (a_fd (g_m g) (fd - 100))) interest in
+      let g := if stale then g_fail g 1104 else g in
       (* if the wait's external actions were not loaded yet, none of them may have been allowed *)
       let g := if g_wloaded g then boundary g
                else boundary (g_with (boundary g) (g_m g) (sc_wait sc (g_nwait g + 1))) in
